@@ -13,7 +13,7 @@ META = dict(
     technique='Hypothesis rule-based state machine over interleaved constructor / call / mutator operations with a fresh-interpreter reference for every call; '
               'stateless batch metamorphic relations (singleton vs superset / subset / permutation / duplicates)',
     rule='histories = sequences (<= 12 steps quick, <= 30 thorough) of construct(spec), call(instance, batch, t), reconstruct, black-box-Noh public mutators on OTHER '
-         'instances, drawn by a RuleBasedStateMachine over 39 solver specs weighted toward the module-global families (Guderley, RMTV, Su-Olson, radiative shocks, black-box Noh, '
+         'instances, drawn by a RuleBasedStateMachine over 40 solver specs weighted toward the module-global families (Guderley, RMTV, Su-Olson, radiative shocks, black-box Noh, '
          'Blake, Riemann, Sedov); oracle = every value returned by a call equals the value of the SAME call executed as the first ExactPack activity of a fresh interpreter '
          '(subprocess, cached per distinct call); batch layer: the value at a point in a singleton call equals its value inside supersets, subsets, permutations and batches '
          'with duplicates (exact class 1e-12, iterative 1e-6, documented resolution for Sedov / Mader), and - for every public solver class found with pkgutil, half of the cases with generated non-default parameters - the value in a singleton call equals the value inside a 2..12 point batch; non-trivial = a call preceded by a construct/call of another instance '
@@ -70,6 +70,10 @@ SPECS = [
     dict(name='riemann2d-fan', fam='riemann2d', solver='exactpack.solvers.riemann2D_2section_steadystate.ep_riemann2D_2section_steadystate.IGEOS_Solver',
          params=dict(bottom_state=[1.0, 1.0, 2.0, -5.0, 1.4], top_state=[0.25, 1.0, 2.0, 0.0, 1.4]),
          pool=[[0.642787609687, -0.766044443119], [0.820151875874, -0.572145873446], [0.882947592859, -0.469471562786], [0.931202211771, -0.36450300519], [0.996194698092, 0.087155742748], [0.707106781187, 0.707106781187]], times=[0.0], tol=1e-9),
+    dict(name='cylsandwich-a', fam='cylsandwich', solver=cat.HEAT + 'cylindrical_sandwich.CylindricalSandwich', params=dict(a=0.25, b=0.85, Nsum=3, Msum=4),
+         pool=[[0.3, 0.5, 0.7, 0.8], [0.2, 0.6, 1.0, 1.3]], times=[0.05, 0.2], tol=1e-12, whole_pool=True),
+    dict(name='cylsandwich-b', fam='cylsandwich', solver=cat.HEAT + 'cylindrical_sandwich.CylindricalSandwich', params=dict(a=0.30, b=0.90, Nsum=3, Msum=4),
+         pool=[[0.35, 0.5, 0.7, 0.85], [0.2, 0.6, 1.0, 1.3]], times=[0.05, 0.2], tol=1e-12, whole_pool=True),
     dict(name='noh-cyl', fam='noh', solver=cat.NOH + 'Noh', params=dict(geometry=2, gamma=1.4, rho0=2.0, u0=-3.0), pool=[0.05, 0.2, 0.5, 1.0], times=[0.3, 0.6], tol=1e-13),
     dict(name='cog8', fam='cog', solver='exactpack.solvers.cog.cog8.Cog8', params=dict(geometry=2, alpha=-1.5, beta=2.0), pool=[0.3, 0.7, 1.1], times=[0.4, 0.9], tol=1e-13),
     dict(name='sdrz', fam='sdrz', solver=cat.SDRZ, params={}, pool=[0.05, 0.2, 0.35, 0.42], times=[0.5, 1.3], tol=1e-12),
